@@ -117,9 +117,7 @@ func oracleTable(text string, params map[string]interface{}) string {
 		s := influxql.NewScanner(strings.NewReader(text))
 		for i := 0; i < len(text)+2; i++ {
 			tok, _, lit := s.Scan()
-			if tok == influxql.EOF {
-				break
-			}
+			// no stop at EOF: a NUL rune reads as EOF in the middle of the text and the parser may go on past it
 			if tok == influxql.STRING {
 				addLoc(lit)
 			}
